@@ -393,6 +393,10 @@ Section Model.
   | CreateSess (u : N) (k : Str) (off : Z)       (* Storage.CreateSession with ExpiresAt = now + off *)
   | ExpireSess (k : Str)
   | RenewSess (k : Str) (off : Z)                (* FindSession, then RenewSession(s, now + off) *)
+  | FindSess (k : Str)                           (* FindSession; the caller keeps the returned object *)
+  | RenewById (id : N) (off : Z)                 (* RenewSession(a session OBJECT obtained earlier for id, now + off):
+                                                    Storage.RefreshSession re-reads the session by the object's ID, so only
+                                                    the id matters and a session that is gone or expired is "not found" *)
   | Wait (d : Z).
 
   Definition sstep (st : sstate) (o : sop) : sstate * N :=
@@ -412,6 +416,16 @@ Section Model.
                           | Some st' => (st', 0%N)
                           | None => (st, 4%N)
                           end
+        end
+    | FindSess k =>
+        match find_by_key st k with
+        | None => (st, 4%N)
+        | Some (id, _) => (st, (100 + id)%N)
+        end
+    | RenewById id off =>
+        match refresh st id (now st + off) with
+        | Some st' => (st', 0%N)
+        | None => (st, 4%N)
         end
     | Wait d => ({| sdat := sdat st; sidx := sidx st; nexts := nexts st; now := now st + d |}, 0%N)
     end.
@@ -479,7 +493,9 @@ Section Model.
   | OP (o : pop)
   | OT (o : top)
   | OS (o : sop)
-  | Probe (h : header) (ck : option Str) (renew : bool).
+  | Probe (h : header) (ck : option Str) (renew : bool)
+  | ProbeRace (k : Str).   (* a cookie-only request with renewal enabled, and a sign-out (ExpireSession k) landing
+                              between the middleware's FindSession and its RenewSession *)
 
   (** observation of an operation: result class, or for a probe
       [status; kind; user; ident; perm+1 (0 = PermissionSet error)] *)
@@ -495,6 +511,21 @@ Section Model.
     | OT o => let '(t, r) := tstep (users (ps st)) (ts st) o in ({| ps := ps st; ts := t; ss := ss st |}, [r])
     | OS o => let '(s, r) := sstep (ss st) o in ({| ps := ps st; ts := ts st; ss := s |}, [r])
     | Probe h ck renew => let '(c, p, st') := authenticate st h ck renew in (st', obs_probe (c, p))
+    | ProbeRace k =>
+        match find_by_key (ss st) k with
+        | None => (st, [401%N])
+        | Some (id, s) =>
+            let ss1 := fst (sstep (ss st) (ExpireSess k)) in
+            match refresh ss1 id (now ss1 + RenewSessionTime) with
+            | None => ({| ps := ps st; ts := ts st; ss := ss1 |}, [401%N])      (* always: the session is gone *)
+            | Some x =>
+                let st' := {| ps := ps st; ts := ts st; ss := x |} in
+                match aget N.eqb (s_user s) (users (ps st)) with
+                | Some true => (st', obs_probe (200%N, Some {| p_kind := 2; p_user := s_user s; p_ident := id; p_perm := Some 0%N |}))
+                | _ => (st', [403%N])
+                end
+            end
+        end
     end.
 
   Definition init (strong_pw uh : bool) (hv : variant) : state :=
@@ -598,7 +629,24 @@ Definition oracle_op (g : ghost) (o : op sym) (ob : list N) : bool :=
       (if N.eqb r 0 then match aget N.eqb u (g_users g) with Some _ => len_ok p | None => false end else true)
   | OP _ _, [_] => true
   | OT _ _, [_] => true
+  | OS _ (FindSess _ k), [r] =>
+      (* found only if it is a stored, unexpired, not signed-out session with this key *)
+      if N.leb 100 r
+      then match aget N.eqb (r - 100)%N (g_sess g) with
+           | Some (k', _, e) => sstr_eqb k k' && Z.ltb (g_now g) e
+           | None => false
+           end
+      else true
   | OS _ _, [_] => true
+  | ProbeRace _ _, [code] => negb (N.eqb code 200)
+  | ProbeRace _ k, [code; kind; u; id; perm] =>
+      (* the in-flight request may still be answered from the state at its FindSession *)
+      N.eqb code 200 && N.eqb kind 2 &&
+      match aget N.eqb u (g_users g) with Some true => true | _ => false end &&
+      match aget N.eqb id (g_sess g) with
+      | Some (k', u', e) => sstr_eqb k k' && N.eqb u u' && Z.ltb (g_now g) e
+      | None => false
+      end
   | Probe _ h ck _, [code] => negb (N.eqb code 200)
   | Probe _ h ck _, [code; kind; u; id; perm] =>
       N.eqb code 200 &&
@@ -675,6 +723,20 @@ Definition gstep (g : ghost) (o : op sym) (ob : list N) : ghost :=
                                             then (id, (k', u, Z.max x (g_now g + off))) else e) (g_sess g);
                     g_nu := g_nu g; g_na := g_na g; g_ns := g_ns g; g_now := g_now g |}
       else g
+  | OS _ (FindSess _ _) => g
+  | OS _ (RenewById _ id off) =>
+      (* only a session that still exists and has not expired can be extended *)
+      if ok then {| g_users := g_users g; g_pw := g_pw g; g_toks := g_toks g;
+                    g_sess := map (fun e => let '(id', (k', u, x)) := e in
+                                            if (N.eqb id' id && Z.ltb (g_now g) x)%bool
+                                            then (id', (k', u, Z.max x (g_now g + off))) else e) (g_sess g);
+                    g_nu := g_nu g; g_na := g_na g; g_ns := g_ns g; g_now := g_now g |}
+      else g
+  | ProbeRace _ k =>
+      (* the key is signed out during the request, whatever the request's answer *)
+      {| g_users := g_users g; g_pw := g_pw g; g_toks := g_toks g;
+         g_sess := filter (fun e => negb (sstr_eqb (fst (fst (snd e))) k)) (g_sess g);
+         g_nu := g_nu g; g_na := g_na g; g_ns := g_ns g; g_now := g_now g |}
   | OS _ (Wait _ d) =>
       {| g_users := g_users g; g_pw := g_pw g; g_toks := g_toks g; g_sess := g_sess g;
          g_nu := g_nu g; g_na := g_na g; g_ns := g_ns g; g_now := (g_now g + d)%Z |}
